@@ -24,6 +24,7 @@ func ruleOrderMatchesIdentity(c *Ctx, rule string) {
 	}
 	isFA := func(t types.Type) bool { return strings.HasSuffix(namedPath(t), "bufanalysis.FileAnnotation") }
 	var ident, cmp *FuncRef
+	var identCands []*FuncRef
 	for _, fr := range p.FuncsOf(pk) {
 		sig, ok := fr.Obj.Type().(*types.Signature)
 		if !ok || sig.Recv() != nil || sig.Results().Len() != 1 || fr.Decl.Body == nil {
@@ -36,6 +37,7 @@ func ruleOrderMatchesIdentity(c *Ctx, rule string) {
 		switch {
 		case sig.Params().Len() == 1 && isFA(sig.Params().At(0).Type()) && rb.Kind() == types.String:
 			ident = fr
+			identCands = append(identCands, fr)
 		case sig.Params().Len() == 2 && isFA(sig.Params().At(0).Type()) && isFA(sig.Params().At(1).Type()) && rb.Kind() == types.Int:
 			cmp = fr
 		}
@@ -77,6 +79,12 @@ func ruleOrderMatchesIdentity(c *Ctx, rule string) {
 			}
 			return true
 		})
+	}
+	// the identity key is the candidate that reads the most of an annotation (small display helpers share the signature)
+	for _, cand := range identCands {
+		if len(accessors(cand)) > len(accessors(ident)) {
+			ident = cand
+		}
 	}
 	ia, ca := accessors(ident), accessors(cmp)
 	var missing []string
